@@ -13,6 +13,7 @@ OWNER_BY_INV = {
 
 GOAL_CFGS = {   # group -> [(config of Goals_Client.tla, goals it must reach)]
     "tight": [("GG_tight_lost.cfg", ["lostDropThenPush", "lagged"]),
+              ("GG_tight_lag2.cfg", ["lagTwiceSameId"]),
               ("GG_tight_misc.cfg", ["abandonThenAccept", "sendErrOnUnsub", "closeThenLeave", "duplicateSubId", "reuseThenDropEnded"])],
 }
 
@@ -65,6 +66,23 @@ def _quiet_owner(group, evs, ev):
             unsub_written = any(x.get("ev") == "WireOut" and x.get("k") == "unsub" and x.get("sub") == s for x in evs)
             if not closed_by_server and not unsub_written:
                 return ("C05", "C18"), "unsubscribe-never-written"
+    # a stream that fell behind (more notifications consumed for it than the application took plus what the buffer holds) is
+    # closed by the client itself: one unsubscribe per such stream, also when the server uses the same id again
+    cap = {"stream": 1, "tight": 1, "batch": 1, "faulty": 1}.get(group, 2)
+    lagging, written = {}, {}
+    acc = [(i, e["h"], e["res"]["sub"]) for i, e in enumerate(evs) if e.get("ev") == "FeDone" and e.get("res", {}).get("k") == "sub"]
+    for n, (i, h, sid) in enumerate(acc):
+        end = next((j for (j, _, s2) in acc[n + 1:] if s2 == sid), len(evs))
+        pushed = sum(1 for x in evs[i:end] if x.get("ev") == "WireIn" and isinstance(x.get("m"), dict)
+                     for y in ([x["m"]] + x["m"].get("elems", [])) if y.get("t") == "notif" and y.get("sub") == sid)
+        took = sum(1 for x in evs[i:] if x.get("ev") == "SubNext" and x.get("h") == h)
+        if pushed - took > cap:
+            lagging[sid] = lagging.get(sid, 0) + 1
+    for x in evs:
+        if x.get("ev") == "WireOut" and x.get("k") == "unsub":
+            written[x.get("sub")] = written.get(x.get("sub"), 0) + 1
+    if any(written.get(sid, 0) < n for sid, n in lagging.items()):
+        return ("C05", "C18"), "unsubscribe-never-written"
     # a subscribe whose caller gave up before the answer: the subscription the server accepted must still be cancelled
     first0, ops0 = _ids_by_op(group, evs)
     for e in evs:
